@@ -73,6 +73,73 @@ CLAIMS = {
              "alias, pinned by existing tests) are known findings.",
         note=TRUST + "GROUP BY / ORDER BY alias references (alias/ref) are not yet under contract.",
         design="§5 C12"),
+    "C04": dict(
+        technique="contract-based deductive verification: evaluation-order vs text-order obligations (O-LINEAR) on "
+                  "the effect sequence and result shape of every render function; leaf contracts; z3",
+        level="other",
+        text="In every render function each nested render that is evaluated contributes its text exactly once "
+             "(linear/once) and nested renders are evaluated in text order (linear/order); ValueWrapper/Array append "
+             "exactly their value when a parameterizer is installed (param/leaf); only the leaf methods read the "
+             "parameterizer (linear/guard-independence); the placeholder table matches the dialect table "
+             "(param/table); no builder wraps a query-builder object in a constant wrapper (param/plain-data). "
+             "L-LINEAR (paper) lifts this to whole statements.",
+        note=TRUST + "Known findings: Column default of a non-Term node, Array.original_value may hold terms. "
+                     "Execution on SQLite is not covered.",
+        design="§4.5, §5 C04"),
+    "C09": dict(
+        technique="contract-based deductive verification: exhaustive state enumeration (limit/offset/order-by set or "
+                  "not) of the symbolic pagination text against the dialect's row-limiting grammar; z3",
+        level="other",
+        text="For each of the six builder classes and each of the 8 presence states the text of the real "
+             "_apply_pagination, collapsed under the state's assumptions, equals the dialect's row-limiting clause "
+             "with the values in the right slots (page/grammar, exhaustive); set operations likewise per base "
+             "dialect; setters store into the right attribute (page/setter); limit/offset are evaluated in text "
+             "order (page/param-order).",
+        note=TRUST + "Known findings: OFFSET without LIMIT for SQLite/MySQL/generic, set operations over SQL Server / "
+                     "Oracle operands emit LIMIT/OFFSET. Row semantics on an engine are not covered.",
+        design="§5 C09"),
+    "C13": dict(
+        technique="contract-based deductive verification: compositional bracket-balance and clause-order analysis of "
+                  "the symbolic result shape of every render function / statement builder; completeness spec "
+                  "evaluated by the same engine; z3",
+        level="proof",
+        text="Every render function's text is bracket-balanced (wf/balanced); in every statement builder the clause "
+             "keywords at depth 0 occur at most once and in the dialect's order for every feasible combination of "
+             "optional clauses (wf/order, pairwise feasibility by z3); an incomplete builder renders '' (wf/empty).",
+        note=TRUST + "NOT covered by this check: commutation of calls addressing different clauses (commute/pair) and "
+                     "acceptance by SQLite's parser; the claim is limited to the well-formedness half of the property.",
+        design="§5 C13"),
+    "C16": dict(
+        technique="contract-based deductive verification: render-slots derived from the real get_sql compared with "
+                  "the slots rebuilt by the real replace_table, path-sensitively (z3); frame obligations of C01",
+        level="proof",
+        text="For every class, on every returning path of replace_table each rendered child slot is rebuilt by a "
+             "nested replace_table call or by assignment of the new table (slots/replace); every receiver of a nested "
+             "call has the method (slots/callee); the receiver is untouched and the result is new (slots/frame).",
+        note=TRUST + "The homomorphism lemma (slot-wise replacement = construction with the new table) is a paper "
+                     "argument.",
+        design="§4.6, §5 C16"),
+    "C17": dict(
+        technique="contract-based deductive verification: symbolic execution of __eq__/__ne__/__hash__ (z3 "
+                  "equivalences, read-set inclusion), structural contracts of the collectors, slot coverage of nodes_",
+        level="other",
+        text="x == x; == is a conjunction of same-attribute equalities (equivalence); != is its negation; the "
+             "attributes a hash reads are among those equality compares (eq/hash); tables_/fields_()/find_ are the "
+             "full node collections (collect/complete); nodes_() traverses every rendered slot (collect/nodes); the "
+             "Field hash key determines (table, name) (collect/dedup - known finding).",
+        note=TRUST + "Known finding: Field de-duplication through the rendered text.",
+        design="§5 C17"),
+    "C18": dict(
+        technique="contract-based deductive verification: scenario execution __init__ ; get_sql over symbolic integer "
+                  "components (z3 integers), regex-membership VCs over symbolic numerals for the trim (z3 regex)",
+        level="proof",
+        text="All 2^7 zero/non-zero patterns, quarters and weeks, all dialect templates: component bookkeeping "
+             "(iv/init), field order and separators passed to the trim (iv/format), sign (iv/sign), unit designator "
+             "(iv/unit), dialect template (iv/template), and - with the trim regex read from the source - the trim "
+             "removes exactly the leading/trailing zero fields (iv/trim, 1000+ z3 regex VCs over unbounded numerals).",
+        note=TRUST + "Axiom R1 (leftmost / first-alternative / greedy semantics of re.sub) is assumed and "
+                     "cross-checked against CPython on a bounded sample.",
+        design="§5 C18"),
 }
 
 PENDING = "machinery for this property not completed yet (build in progress, see DESIGN.md §10)"
